@@ -196,3 +196,82 @@ func (w *World) DirSweep() {
 		w.fail("dir-schema", "-", "-", fmt.Sprintf("schema.json lists %d objects, model %d", len(idx), len(w.m.objs)))
 	}
 }
+
+// indexKeys decodes the tuples of schema.json: path -> uuid -> key. Only
+// well-formed tuples of known ids are returned.
+func (d *DiskState) indexKeys() map[string]map[string]Key {
+	out := map[string]map[string]Key{}
+	if d.Schema == nil {
+		return out
+	}
+	idx, _ := d.Schema["index"].(map[string]interface{})
+	ids, _ := idx["object-ids"].(map[string]interface{})
+	fields, _ := idx["fields"].(map[string]interface{})
+	for p, fv := range fields {
+		fm, _ := fv.(map[string]interface{})
+		cast, _ := fm["cast"].(string)
+		tuples, _ := fm["index"].([]interface{})
+		out[p] = map[string]Key{}
+		for _, t := range tuples {
+			tt, ok := t.([]interface{})
+			if !ok || len(tt) != 2 {
+				continue
+			}
+			idn, ok := tt[1].(json.Number)
+			if !ok {
+				continue
+			}
+			u, ok := ids[idn.String()].(string)
+			if !ok {
+				continue
+			}
+			switch cast {
+			case "string":
+				if sv, ok := tt[0].(string); ok {
+					out[p][u] = Key{Kind: "string", S: sv}
+				}
+			case "int64":
+				if n, ok := tt[0].(json.Number); ok {
+					if v, err := n.Int64(); err == nil {
+						out[p][u] = Key{Kind: "int64", I: v}
+					}
+				}
+			case "uint64":
+				if n, ok := tt[0].(json.Number); ok {
+					var v uint64
+					if _, err := fmt.Sscan(n.String(), &v); err == nil {
+						out[p][u] = Key{Kind: "uint64", U: v}
+					}
+				}
+			case "float64":
+				if n, ok := tt[0].(json.Number); ok {
+					if v, err := n.Float64(); err == nil {
+						out[p][u] = Key{Kind: "float64", F: v}
+					}
+				}
+			}
+		}
+	}
+	return out
+}
+
+// staleEntries lists uuids present both in schema.json's index and as object
+// files whose indexed tuple value differs from the value in the file.
+func (d *DiskState) staleEntries(files map[string]*Rec) []string {
+	var out []string
+	seen := map[string]bool{}
+	for p, m := range d.indexKeys() {
+		for u, k := range m {
+			x, ok := files[u]
+			if !ok || seen[u] {
+				continue
+			}
+			if fk, ok := recKey(x, p); ok && (fk.Kind != k.Kind || cmpKey(fk, k) != 0) {
+				out = append(out, u)
+				seen[u] = true
+			}
+		}
+	}
+	sort.Strings(out)
+	return out
+}
